@@ -32,10 +32,50 @@ func src(n ast.Node) string {
 	return b.String()
 }
 
+// globals are the package-level variables of the package that are not error sentinels (and not the hook variable):
+// state every goroutine of the process shares.
+var globals = map[string]bool{}
+
+func collectGlobals(files []*ast.File) {
+	for _, f := range files {
+		for _, d := range f.Decls {
+			gd, ok := d.(*ast.GenDecl)
+			if !ok || gd.Tok != token.VAR {
+				continue
+			}
+			for _, sp := range gd.Specs {
+				vs := sp.(*ast.ValueSpec)
+				for i, name := range vs.Names {
+					if name.Name == "_" || name.Name == "Verif" {
+						continue
+					}
+					sentinel := false
+					if i < len(vs.Values) {
+						if call, ok := vs.Values[i].(*ast.CallExpr); ok {
+							if sel, ok := call.Fun.(*ast.SelectorExpr); ok {
+								if id, ok := sel.X.(*ast.Ident); ok && (id.Name == "errors" || id.Name == "fmt") {
+									sentinel = true
+								}
+							}
+						}
+					}
+					if !sentinel {
+						globals[name.Name] = true
+					}
+				}
+			}
+		}
+	}
+}
+
 func touchesSharedState(body *ast.BlockStmt) bool {
 	found := false
 	ast.Inspect(body, func(n ast.Node) bool {
 		switch x := n.(type) {
+		case *ast.Ident:
+			if globals[x.Name] && x.Obj == nil {
+				found = true
+			}
 		case *ast.FuncLit:
 			return false // a literal is judged on its own
 		case *ast.SendStmt:
@@ -261,15 +301,27 @@ func main() {
 	dir := os.Args[1]
 	files, _ := filepath.Glob(filepath.Join(dir, "*.go"))
 	total := 0
+	parsed := map[string]*ast.File{}
+	var all []*ast.File
 	for _, path := range files {
 		base := filepath.Base(path)
 		if strings.HasSuffix(base, "_test.go") || strings.HasPrefix(base, "verif_") {
 			continue
 		}
-		f, err := parser.ParseFile(fset, path, nil, 0) // comments are dropped: positions would no longer fit
+		f, err := parser.ParseFile(fset, path, nil, parser.SkipObjectResolution) // comments are dropped: positions would no longer fit
 		if err != nil {
 			fmt.Fprintf(os.Stderr, "instr: %v\n", err)
 			os.Exit(2)
+		}
+		parsed[path] = f
+		all = append(all, f)
+	}
+	collectGlobals(all)
+	for _, path := range files {
+		base := filepath.Base(path)
+		f := parsed[path]
+		if f == nil {
+			continue
 		}
 		n := 0
 		for _, d := range f.Decls {
